@@ -302,7 +302,12 @@ PROPERTIES["C11"] = {
                   "issues; each execution is judged on exactly-once execution, block shape, completion before "
                   "return, hang (no enabled thread, with spin-loop blocking) and data races (vector-clock "
                   "happens-before detector honouring the memory orders the code passes); the block arithmetic is "
-                  "enumerated exhaustively without threads",
+                  "enumerated exhaustively without threads; second harness (mc_poolseq): EVERY sequence of pool "
+                  "operations {run_blocks, pause, resume, resize(1..3|4)} up to length 3 (quick) / 4 (thorough) followed by "
+                  "destruction, each explored over all schedules within the bound, with the pool header compiled with "
+                  "-fsanitize=thread instrumentation feeding our own happens-before runtime (so the pool's plain members "
+                  "p_jobs, m_paused, m_started, m_size, job vectors are race-checked) and libstdc++ assertions on (an "
+                  "out-of-range flag index is a crash verdict with the schedule attached)",
     "level_note": "sequentially consistent interleavings only (weak-memory behaviours are not enumerated; the "
                   "happens-before detector flags what the C++ model leaves unordered); 2 workers (quick) / 2-3 "
                   "(thorough); preemption bound 2 un-cached on the single patterns, bound 1-2 with state caching on "
@@ -310,7 +315,7 @@ PROPERTIES["C11"] = {
                   "the stated guarantee); one or two spurious wake-ups as a separately bounded environment deviation",
     "technique": "preemption-bounded exhaustive schedule exploration (CHESS-style) of the implementation under a "
                  "controlled scheduler, happens-before race detector",
-    "harnesses": [{"name": "mc_pool"}],
+    "harnesses": [{"name": "mc_pool"}, {"name": "mc_poolseq"}],
     "rule": "states = distinct scheduler states at choice points (hash of atomics, lock owners, waiter sets, pending "
             "operations + call contexts, vector clocks, detector shadow); transitions = scheduling steps; "
             "evaluations = executions (schedules); non-trivial = executions with at least one preemptive switch; "
@@ -320,8 +325,10 @@ PROPERTIES["C11"] = {
                     "before a hang is declared)",
                     "job inputs / outputs are modelled by explicit plain-access events in the harness callbacks",
                     "pool constructed as flow_graph does (pool(10), never started before the first dispatch)"],
-    "bounds": {"quick": {"workers": "2 (3 after a resize)", "preemptions": "2 (single pattern, un-cached), 1 (two patterns, un-cached), 2 (cached)"},
-               "thorough": {"workers": "2-3", "preemptions": "3 (single pattern, un-cached), unbounded (cached), 2 elsewhere"}},
+    "bounds": {"quick": {"workers": "2 (3 after a resize)", "preemptions": "2 (single pattern, un-cached), 1 (two patterns, un-cached), 2 (cached)",
+                         "operation_sequences": "length <= 3 at bound 0, length <= 2 at bound 1 (+ length 3 over {r3,p,z3}), 1-4 workers"},
+               "thorough": {"workers": "2-3", "preemptions": "3 (single pattern, un-cached), unbounded (cached), 2 elsewhere",
+                            "operation_sequences": "length <= 4 at bound 0, length <= 3 at bound 1, length <= 2 at bound 2, 1-4 workers"}},
     "deadline": {"quick": 600, "thorough": 3000},
 }
 
